@@ -53,7 +53,10 @@ class C19(Check):
         shape = rng.choice(SHAPES)
         cap = rng.choice([1, 1, 2, 3, 4, 5, 8, 1024])
         cfg = {'cap': cap, 'shape': shape, 'dtype': dtype, 't0': rng.choice([0.0, 0.0, -1.5, 2.0, 1e-3]),
-               'y0': _vec(rng, shape, dtype), 'max_steps': None, 'alloc': None, 'mutate_y0': rng.random() < 0.5}
+               'y0': _vec(rng, shape, dtype), 'max_steps': None, 'alloc': None, 'mutate_y0': rng.random() < 0.5,
+               # the harness's own verification queries are operations on the object too: in half of the runs only the
+               # scripted queries (and the final sweep) touch it, so query-side state cannot hide behind them
+               'verify_each': rng.random() < 0.5}
         if stratum == 'S-bounded':
             cfg['max_steps'] = rng.choice([0, 1, 2, 3, 5, 8])
         if stratum == 'S-alloc-fault':
@@ -78,8 +81,10 @@ class C19(Check):
                 ts.append(t)   # generator's belief; the executor keeps the authoritative record list
             else:
                 k = rng.random()
-                if qs and k < 0.15:
+                if qs and k < 0.12:
                     t = rng.choice(qs)
+                elif qs and k < 0.30:
+                    t = qs[-1]          # the same time again (what a multi-stage solver does), updates may lie between
                 elif k < 0.40:
                     t = rng.choice(ts)
                 elif k < 0.48:
@@ -246,10 +251,11 @@ class C19(Check):
                 if mutate and y.ndim:
                     y[...] = 99
                     bump(probes, 'caller_mutation')
-                if growths[0] > g_before:
-                    sweep(opi, 'after-growth')
-                else:
-                    check_query(t, opi, 'post-update')
+                if cfg.get('verify_each', True):
+                    if growths[0] > g_before:
+                        sweep(opi, 'after-growth')
+                    else:
+                        check_query(t, opi, 'post-update')
             else:
                 t = op[1]
                 kind = check_query(t, opi, 'query')
@@ -289,6 +295,8 @@ class C19(Check):
             yield with_key(trace, ['config', 'dtype'], 'float64')
         if cfg['mutate_y0']:
             yield with_key(trace, ['config', 'mutate_y0'], False)
+        if cfg.get('verify_each', True):
+            yield with_key(trace, ['config', 'verify_each'], False)
 
 
 CHECK = C19()
